@@ -155,7 +155,7 @@ class PGeo:
         chain, near = [], False
         while True:
             u = self.univ[ui]
-            d = delta if delta is not None else 100 * self.tol * max(1.0, max(abs(c) for c in p))
+            d = delta if delta is not None else 8 * self.tol * max(1.0, max(abs(c) for c in p))
             if u["t"] == "rect":
                 idx = []
                 for ax in range(3):
@@ -536,8 +536,7 @@ class GeoRun:
             pos0, dir0 = st["levels"][0]["pos"], st["levels"][0]["dir"]
             chain = chain_of(st)
             if st["b"] == "0":
-                # reentrant: distance 0, cross is a no-op
-                st_["reentrant"] += 1
+                pass        # reentrant (pre-crossing direction reversal): distance 0, cross is a no-op
             else:
                 if not bnd:
                     if st["out"]:
@@ -626,6 +625,8 @@ class GeoRun:
                 st, abort = set_dir(nd)
                 if abort:
                     return
+            if st["b"] == "0":
+                st_["reentrant"] += 1
             o = s.ask("cross")
             st = parse_state(o)
             st_["ops"] += 1
